@@ -593,6 +593,8 @@ type vfC03Run struct {
 	step    int
 	prefix  []vfh.Op
 	dead    bool // an L1 sum failure desynchronised ledger and manager: stop judging this walk
+	cfgDump map[string]any
+	last    map[string]vfC03Vec // the usage every scope reported after the previous step
 }
 
 func vfC03ErrClass(err error) string {
@@ -664,7 +666,14 @@ func (r *vfC03Run) statOf(name string) vfC03Vec {
 
 func (r *vfC03Run) mismatch(class, what string, exp, got any) {
 	r.res.AddMismatch(vfh.Mismatch{Class: class, What: what, Walk: r.walk, Step: r.step, Expected: exp, Got: got,
-		Prefix: append([]vfh.Op(nil), r.prefix...), Cfg: map[string]any{"fam": r.cf.Fam}})
+		Prefix: append([]vfh.Op(nil), r.prefix...), Cfg: r.cfgOf()})
+}
+
+func (r *vfC03Run) cfgOf() map[string]any {
+	if r.cfgDump != nil {
+		return r.cfgDump
+	}
+	return map[string]any{"fam": r.cf.Fam}
 }
 
 // universe of scopes read after every step
@@ -961,7 +970,10 @@ func (r *vfC03Run) doStep(op vfh.Op) string {
 		return "dead"
 	}
 	r.prefix = append(r.prefix, op)
-	before := r.snapshot()
+	before := r.last
+	if before == nil {
+		before = r.snapshot()
+	}
 	allowed, apply := r.expect(op)
 	got, err := r.exec(op)
 	refused := got != "nil"
@@ -985,6 +997,7 @@ func (r *vfC03Run) doStep(op vfh.Op) string {
 	}
 	// Sum + Bounds on every scope
 	after := r.snapshot()
+	r.last = after
 	var bad []string
 	for _, s := range r.scopes() {
 		if after[s] != r.lg.expected(s) {
@@ -1194,13 +1207,16 @@ func (r *vfC03Run) compareModel(op vfh.Op, got string, raw json.RawMessage) {
 			return
 		}
 	}
+	if len(raw) == 0 || string(raw) == "null" {
+		return // a recorded prefix re-executed alone: ledger monitors only
+	}
 	var st vfC03State
 	if err := json.Unmarshal(raw, &st); err != nil {
 		r.mismatch("L2:state:unparsable", err.Error(), nil, string(raw))
 		return
 	}
 	for _, s := range r.scopes() {
-		if want, gotv := vfC03Vec(st.Use[s]), r.statOf(s); want != gotv {
+		if want, gotv := vfC03Vec(st.Use[s]), r.last[s]; want != gotv {
 			r.mismatch("L2:state:use:"+op.Name(), fmt.Sprintf("after %s scope %s: model %v, manager %v", vfC03OpStr(op), s, want, gotv), want, gotv)
 		}
 	}
@@ -1331,6 +1347,129 @@ func vfC03RunWalk(cf *vfC03Conf, res *vfh.Result, w vfh.Walk) error {
 	res.Count(1, len(r.prefix))
 	r.finish()
 	return nil
+}
+
+// ---------------------------------------------------------------------------------------------
+// random limit tables x random sequential histories, judged by the ledger alone (no model)
+
+func vfC03RandomConf(rnd *rand.Rand, i int) *vfC03Conf {
+	pickMem := func() int64 { return []int64{0, 1, 2, 3, 4, 6, vfC03RandInf}[rnd.Intn(7)] }
+	pickN := func() int { return []int{0, 1, 1, 2, 2, 3, vfC03RandInf}[rnd.Intn(7)] }
+	L := func() vfC03Lim {
+		l := vfC03Lim{Mem: pickMem(), Si: pickN(), So: pickN(), S: pickN(), Ci: pickN(), Co: pickN(), C: pickN(), Fd: pickN()}
+		if rnd.Intn(3) == 0 { // mostly generous, so that histories get somewhere
+			l = vfC03Lim{Mem: l.Mem, Si: 3, So: 3, S: 4, Ci: 3, Co: 3, C: 4, Fd: 2}
+		}
+		return l
+	}
+	cf := &vfC03Conf{Fam: "random", Inf: vfC03RandInf, Deflim: L(), Peers: []string{"p1", "p2"}, Protos: []string{"a"},
+		Svcs: []string{"x"}, Eps: []string{"n0", "a1", "a2", "v6"},
+		Epb: vfC03M[[]string]{"a1": {"a1/32", "a/24"}, "a2": {"a2/32", "a/24"}, "v6": {"v6/56"}, "n0": {}},
+		Cap: vfC03M[int]{"a1/32": 1 + rnd.Intn(2), "a/24": 1 + rnd.Intn(3), "v6/56": 1 + rnd.Intn(2)},
+		Lim: vfC03M[vfC03Lim]{}}
+	cf.Cap["a2/32"] = cf.Cap["a1/32"]
+	for _, k := range []string{"sys", "trans", "peer:p1", "peer:p2", "proto:a", "proto:a.peer", "svc:x", "svc:x.peer", "conn", "stream"} {
+		if rnd.Intn(4) > 0 {
+			cf.Lim[k] = L()
+		}
+	}
+	cf.init()
+	return cf
+}
+
+const vfC03RandInf = 1000000
+
+func vfC03RandomOp(rnd *rand.Rand, lg *vfC03Ledger, n *int) vfh.Op {
+	var conns, streams, all []string
+	for _, id := range lg.order {
+		all = append(all, id)
+		switch lg.objs[id].kind {
+		case "conn":
+			conns = append(conns, id)
+		case "stream":
+			streams = append(streams, id)
+		}
+	}
+	pick := func(xs []string) string { return xs[rnd.Intn(len(xs))] }
+	views := []string{"sys", "trans", "peer:p1", "peer:p2", "proto:a", "svc:x"}
+	dir := pick([]string{"in", "out"})
+	for {
+		switch r := rnd.Intn(100); {
+		case r < 14:
+			*n++
+			return vfh.Op{"name": "openconn", "id": fmt.Sprintf("c%d", *n), "dir": dir, "fd": rnd.Intn(2) == 0, "ep": pick(lg.cf.Eps)}
+		case r < 26:
+			*n++
+			return vfh.Op{"name": "openstream", "id": fmt.Sprintf("s%d", *n), "dir": dir, "peer": pick(lg.cf.Peers)}
+		case r < 34 && len(conns) > 0:
+			return vfh.Op{"name": "setpeer", "h": pick(conns), "peer": pick(lg.cf.Peers)}
+		case r < 42 && len(streams) > 0:
+			return vfh.Op{"name": "setprotocol", "h": pick(streams), "proto": "a"}
+		case r < 49 && len(streams) > 0:
+			return vfh.Op{"name": "setservice", "h": pick(streams), "svc": "x"}
+		case r < 66:
+			return vfh.Op{"name": "reserve", "h": pick(append(append([]string(nil), all...), pick(views))), "n": float64(rnd.Intn(4)),
+				"prio": float64([]int{0, 63, 127, 191, 255, 255}[rnd.Intn(6)])}
+		case r < 78:
+			var hs []string
+			for _, h := range append(append([]string(nil), all...), views...) {
+				if lg.heldOf(h) > 0 && !lg.closed(h) {
+					hs = append(hs, h)
+				}
+			}
+			if len(hs) == 0 {
+				continue
+			}
+			h := pick(hs)
+			return vfh.Op{"name": "release", "h": h, "n": float64(1 + rnd.Int63n(lg.heldOf(h)))}
+		case r < 85 && len(all) > 0:
+			*n++
+			return vfh.Op{"name": "beginspan", "id": fmt.Sprintf("sp%d", *n), "h": pick(append(append([]string(nil), all...), pick(views)))}
+		case r < 96 && len(all) > 0:
+			return vfh.Op{"name": "done", "h": pick(all)}
+		case r >= 96:
+			// scope GC, where it cannot forget a bare View reservation (known finding, see gcmem)
+			safe := true
+			for _, s := range []string{"peer:p1", "peer:p2", "proto:a"} {
+				safe = safe && lg.direct[s] == 0
+			}
+			if safe {
+				return vfh.Op{"name": "gc"}
+			}
+		}
+	}
+}
+
+func TestVerifC03Random(t *testing.T) {
+	res := vfh.NewResult()
+	res.Rule = "distinct = (call, outcome) pairs executed under random limit tables"
+	defer func() {
+		if err := res.Write(); err != nil {
+			t.Fatal(err)
+		}
+	}()
+	n := vfh.EnvInt("VERIF_C03_RANDOM", 200)
+	for i := 0; i < n; i++ {
+		rnd := rand.New(rand.NewSource(vfh.Seed()*1000003 + int64(i)))
+		cf := vfC03RandomConf(rnd, i)
+		rm, err := cf.newMgr()
+		if err != nil {
+			t.Fatal(err)
+		}
+		r := &vfC03Run{cf: cf, rm: rm, lg: vfC03NewLedger(cf), handles: map[string]vfC03Scope{}, res: res, walk: i}
+		r.cfgDump = map[string]any{"fam": "random", "lim": cf.Lim, "deflim": cf.Deflim, "cap": cf.Cap}
+		cnt := 0
+		for s := 0; s < 60 && !r.dead; s++ {
+			r.step = s
+			op := vfC03RandomOp(rnd, r.lg, &cnt)
+			got := r.doStep(op)
+			res.Case(op.Name() + "|" + got)
+		}
+		res.Count(1, len(r.prefix))
+		r.finish()
+		rm.Close()
+	}
+	res.Sample(map[string]any{"histories": n, "steps_each": 60})
 }
 
 func TestVerifC03Replay(t *testing.T) {
